@@ -265,6 +265,12 @@ pub fn judge_section(section: &[u8], rec: &mut Recorder) {
 }
 
 pub fn judge_header(input: &[u8], rec: &mut Recorder) {
+    // only headers the wire format accepts are C11's subject (history siblings may be anything)
+    if !spec::v2::v2_ref(input).is_ok() {
+        rec.case(hash_bytes(input), false);
+        rec.class("skipped:not-a-valid-header", || show(input, 40));
+        return;
+    }
     let fam = (input[13] >> 4) as u8;
     let len = u16::from_be_bytes([input[14], input[15]]) as usize;
     let size = fam_size(fam).unwrap_or(0);
@@ -319,10 +325,10 @@ impl Monitor for C11 {
             let mut rng = Rng::for_case(seed, stream_id(stream), idx);
             let mut b = Vec::new();
             valid_header(&mut rng, &mut b);
-            judge_header(&b, rec);
+            spec::sib::run_v2(&b, idx, 4, |x| judge_header(x, rec));
         } else {
             let s = tlv_case(stream, idx, seed);
-            judge_section(&s, rec);
+            spec::sib::run_tlv(&s, idx, 3, |x| judge_section(x, rec));
         }
     }
     fn floor(&self, tier: Tier) -> Vec<&'static str> {
